@@ -28,6 +28,10 @@ def check(run):
     )
     run.rule_text = "F-IDX (IDX-1/IDX-2) + F-UNIT + F-PATH (abs, last-axis) + F-TABLE (MPAS distance roles)"
     run.assumptions = ["grid schema (conventions/ugrid.py)", "MPAS mesh spec: dvEdge = distance between an edge's vertices, dcEdge = between its cells"]
+    from ..rules import dtype as _dt
+    _dt.check_float_results(run, P, ["uxarray/core/gradient.py:_calculate_edge_face_difference", "uxarray/core/gradient.py:_calculate_edge_node_difference",
+                                    "uxarray/core/gradient.py:_calculate_grad_on_edge_from_faces", "uxarray/core/dataarray.py:UxDataArray.gradient", "uxarray/core/dataarray.py:UxDataArray.difference"])
+    _boundary_zero(run, P)
     R = dataflow(P, run.tier)
     ok, bad = emit(run, R, {"IDX/space", "IDX/fill-safety", "UNIT/deg->trig", "UNIT/double-conversion"}, files=[NEI, GRAD])
     run.floor("F-IDX", ok + bad, 8)
@@ -111,3 +115,35 @@ def check(run):
     # MPAS distance roles (incl. dual): edge_node_distances <- distance between the preimages of 'node'
     from ..rules import readers
     readers.check_mpas_distance_roles(run, P)
+
+
+def _boundary_zero(run, P):
+    """edge_face_distances: a boundary edge (one neighbouring face) has distance exactly 0: the result array is allocated with zeros and
+    only the interior edges (mask: second face != INT_FILL_VALUE) receive a computed value."""
+    import ast as _ast
+    from ..astutil import iter_stmts as _it, norm as _n
+    from ..rules import shape as S
+    f = P.func("uxarray/grid/neighbors.py:_construct_edge_face_distances")
+    c = f"{f.key}:boundary-edges-zero"
+    alloc = None
+    for st in _it(f.node.body):
+        if isinstance(st, _ast.Assign) and isinstance(st.targets[0], _ast.Name) and isinstance(st.value, _ast.Call) and (dotted(st.value.func) or [""])[-1] == "zeros":
+            alloc = st
+    rets = [r for r in _ast.walk(f.node) if isinstance(r, _ast.Return)]
+    if alloc is None or not rets or not all(_n(r.value) == alloc.targets[0].id for r in rets):
+        run.violation("IDX/boundary-zero", c, where(f), "the returned distances are not a zero-initialised array filled for interior edges only: boundary edges no longer get the exact distance 0 (a computed arccos of ~1 is 1e-8 or NaN)")
+        return
+    name = alloc.targets[0].id
+    # mask = edge_faces[:, 1] != INT_FILL_VALUE
+    mask = None
+    for st in _it(f.node.body):
+        if isinstance(st, _ast.Assign) and isinstance(st.targets[0], _ast.Name):
+            ft = S.fill_test(st.value)
+            if ft and ft[0] == "ne" and isinstance(ft[1], _ast.Subscript) and S.subscript_axes(ft[1]) == [("all",), ("idx", 1)]:
+                mask = st.targets[0].id
+    stores = S.stores_into(f.node, name)
+    ok = mask is not None and stores and all(_n(s2.targets[0].slice) == mask for s2 in stores)
+    if ok:
+        run.holds("IDX/boundary-zero", c, where(f, alloc), f"zeros for every edge; computed distance stored only where {mask} (second face present)")
+    else:
+        run.violation("IDX/boundary-zero", c, where(f, alloc), "computed distances are not restricted to the edges whose second face exists")
